@@ -299,7 +299,7 @@ class Executor:
 
     def setattr(self, st, o, attr, v, fx):
         if isinstance(o, SObj):
-            st.objs[o.oid][attr] = v
+            st.fields(o)[attr] = v
             return [(st, None)]
         if isinstance(o, SNode):
             out = []
@@ -544,8 +544,10 @@ class Executor:
             raise ToolLimit('loop #%d of %s has no invariant' % (ordinal, fx.fi.qualname))
         lp = LoopCtx(ordinal, st, seq)
         cx = self.cx
-        # --- initialisation
+        # --- initialisation (ghost functions get their initial definition first)
         lp.k, lp.st = z3.IntVal(0), st
+        for f in inv.ghost_init(cx, lp):
+            st.assume(f)
         for name, f in inv.invariant(cx, lp):
             self.oblige(st, 'inv-init#%d.%s' % (ordinal, name), f, kind='inv')
         mods = assigned_names(stmt.body) | assigned_names([ast.Expr(value=stmt.target)]) | \
@@ -586,6 +588,16 @@ class Executor:
                 continue
             for s3, c3 in self.exec_block(stmt.body, s2, fx):
                 if c3 is None or c3[0] == 'continue':
+                    lpg = LoopCtx(ordinal, st, seq)
+                    lpg.k, lpg.st, lpg.cur, lpg.head = k, s3, cur, sh
+                    for f in inv.ghost_update(cx, lpg):
+                        if isinstance(f, tuple) and f[0] == 'skolem':
+                            # exists-elimination: prove the witness exists, then name it by the ghost term
+                            _, gname, exists_f, inst_f = f
+                            self.oblige(s3, 'ghost-witness#%d.%s' % (ordinal, gname), exists_f, kind='inv')
+                            s3.assume(inst_f)
+                        else:
+                            s3.assume(f)
                     lp2 = LoopCtx(ordinal, st, seq)
                     lp2.k, lp2.st, lp2.cur = k + 1, s3, cur
                     for name, f in inv.invariant(cx, lp2):
